@@ -239,7 +239,7 @@ def run_case(rng, idx, tier, ctx):
                                            {"k": o.k, "act": "stall", "frac": 4.0}]}))
     near_top = wm.get("lock") is not None and (core.read_lock(wm["lock"]) or 0) >= 0xFFFFFFFF - 64
     pass2 = [o for o in ops if phm.get(o.k) in ("scratch-open", "scratch-write", "rename", "after-rename", "read-after-mutation")]
-    if not check and pass2 and not wm["extra"] and not near_top and rng.random() < (0.5 if not thorough else 1.0):
+    if not check and pass2 and not any("_bin" in p for p in wm["extra"]) and not near_top and rng.random() < (0.5 if not thorough else 1.0):
         # breadlog | tee log, Ctrl-C: the reader of the pipe dies of the same signal, so from the stop request on nothing can
         # be printed any more.  (Only worlds in which the tool has nothing to say between the request and its exit: no
         # unreadable files, ID range not running out - dying on such a line is the publish window of known finding F4.)
